@@ -87,6 +87,7 @@ theorem elseifs_none_truthy (f : Nat) (c : Ctx) (env : Env) (alt : Option (List 
         | none => .ok ({}, env)
   | [], _ => by
     rw [List.length_nil, Nat.add_zero, evalElseIfs_nil]
+    cases alt <;> rfl
   | p :: alts, hall => by
     obtain ⟨w, hw, hwf⟩ := hall p List.mem_cons_self
     have hw' : evalExpr (f + (alts.length + 1)) c env p.1 = .ok w := by
